@@ -1,5 +1,5 @@
 """C04 — EnumIter yields every enabled variant exactly once, in declaration order."""
-from vlib.defs import Item, Variant, Field, DISABLED, ser, msg, props
+from vlib.defs import Item, Variant, Field, DISABLED, ser, msg, props, raw, doc
 from vlib.run import Corpus
 from vlib import structs as T
 from vlib import strings as S
@@ -30,8 +30,11 @@ def mkv(name, kind, dis, gen=False):
         v = Variant(name, "named", [Field("usize", "a"), Field("String", "b")])
     if dis:
         # `disabled` alone, after / before other items of the same attribute, or in an attribute of its own
-        k = sum(map(ord, name)) % 4
-        v.metas = [[DISABLED], [ser("x-" + name), DISABLED], [DISABLED, msg("m")], [props([("k", ("i", 1))]), DISABLED, ser("y-" + name)]][k]
+        # also behind attributes strum does not read: #[doc(hidden)], #[doc(alias = ..)], #[allow(..)], a doc comment
+        k = sum(map(ord, name)) % 8
+        v.metas = [[DISABLED], [ser("x-" + name), DISABLED], [DISABLED, msg("m")], [props([("k", ("i", 1))]), DISABLED, ser("y-" + name)],
+                   [raw("doc(hidden)"), DISABLED], [raw('doc(alias = "al")'), ser("z-" + name), DISABLED], [raw("allow(dead_code)"), doc(" text"), DISABLED],
+                   [DISABLED, raw("doc(hidden)")]][k]
         if k == 3:
             v.groups = [1, 1]
     return v
